@@ -1,3 +1,576 @@
-use crate::monitor::Ctx;
-pub fn run(_ctx: &mut Ctx) {}
-pub fn cell_main(_args: &[String]) {}
+//! C20 — deep nesting and extreme arguments end in a result or an error, never a crash.
+//!
+//! Stack exhaustion cannot be caught in-process, so every (entry point, shape, depth) cell runs
+//! in its own subprocess (`jv cell ...`) on a thread with an explicit 8 MiB stack; the parent
+//! observes the exit status. Integer extremes run in-process under checked arithmetic and are
+//! compared with the model.
+
+use super::c05::lib_keypath;
+use crate::gen::{self, PathCfg, PathGen};
+use crate::monitor::{guard, Ctx, Tier};
+use crate::refcodec;
+use crate::refops::{self, Edit, KP};
+use crate::refpath::{self, AIdx, Idx, JPath, Step};
+use crate::tree::{hex, Num, Tree};
+use std::process::{Command, Stdio};
+use std::time::{Duration, Instant};
+
+pub const ENTRIES: &[&str] = &[
+    "parse_value",
+    "Value::to_vec",
+    "from_slice",
+    "parse_jsonb",
+    "to_string",
+    "to_pretty_string",
+    "compare",
+    "convert_to_comparable",
+    "contains",
+    "strip_nulls",
+    "to_serde_json",
+    "get_by_path",
+    "get_by_keypath",
+    "delete_by_keypath",
+    "traverse_check_string",
+    "concat",
+    "parse_json_path(parens)",
+    "parse_json_path(nested-filters)",
+    "parse_json_path(long)",
+];
+pub const SHAPES: &[&str] = &["array", "object", "alternating"];
+pub const DEPTHS: &[usize] = &[1, 10, 100, 1_000, 10_000, 100_000, 300_000];
+
+/// Depth from which stack exhaustion is a *known* finding on the unchanged tree (first failing
+/// depth of the schedule, 8 MiB stack, this compiler, checked release build). A crash below the
+/// floor, or in an entry point without a floor, is reported under a different signature.
+pub fn known_floor(entry: &str) -> Option<usize> {
+    Some(match entry {
+        "parse_value" => 10_000,
+        "Value::to_vec" => 100_000,
+        "from_slice" | "parse_jsonb" => 100_000,
+        "to_string" | "to_pretty_string" => 100_000,
+        "compare" => 100_000,
+        "contains" => 100_000,
+        "strip_nulls" => 100_000,
+        "to_serde_json" => 10_000,
+        "delete_by_keypath" => 100_000,
+        "concat" => 100_000,
+        "parse_json_path(parens)" => 10_000,
+        "parse_json_path(nested-filters)" => 10_000,
+        _ => return None,
+    })
+}
+
+// ------------------------------------------------------------------ input builders (iterative)
+
+fn is_arr(shape: &str, level: usize) -> bool {
+    match shape {
+        "array" => true,
+        "object" => false,
+        _ => level % 2 == 0,
+    }
+}
+
+pub fn deep_text(shape: &str, depth: usize) -> Vec<u8> {
+    let mut s = Vec::with_capacity(depth * 8 + 8);
+    for l in 0..depth {
+        if is_arr(shape, l) {
+            s.push(b'[');
+        } else {
+            s.extend_from_slice(b"{\"a\":");
+        }
+    }
+    s.extend_from_slice(b"1");
+    for l in (0..depth).rev() {
+        s.push(if is_arr(shape, l) { b']' } else { b'}' });
+    }
+    s
+}
+
+pub fn deep_jsonb(shape: &str, depth: usize, leaf: u8) -> Vec<u8> {
+    // lengths from the inside out
+    let leaf_payload: [u8; 2] = [0x50, leaf];
+    let mut lens = vec![0usize; depth + 1];
+    // level `depth` is the innermost container holding the scalar
+    for l in (0..depth).rev() {
+        let inner = if l + 1 == depth { 2 } else { lens[l + 1] };
+        lens[l] = if is_arr(shape, l) { 8 + inner } else { 13 + inner };
+    }
+    let mut out = Vec::with_capacity(lens[0] + 16);
+    if depth == 0 {
+        out.extend_from_slice(&[0x20, 0, 0, 0, 0x20, 0, 0, 2]);
+        out.extend_from_slice(&leaf_payload);
+        return out;
+    }
+    for l in 0..depth {
+        let inner = if l + 1 == depth { 2 } else { lens[l + 1] };
+        let entry: u32 = if l + 1 == depth { 0x2000_0000 | 2 } else { 0x5000_0000 | inner as u32 };
+        if is_arr(shape, l) {
+            out.extend_from_slice(&0x8000_0001u32.to_be_bytes());
+            out.extend_from_slice(&entry.to_be_bytes());
+        } else {
+            out.extend_from_slice(&0x4000_0001u32.to_be_bytes());
+            out.extend_from_slice(&0x1000_0001u32.to_be_bytes());
+            out.extend_from_slice(&entry.to_be_bytes());
+            out.push(b'a');
+        }
+    }
+    out.extend_from_slice(&leaf_payload);
+    out
+}
+
+fn deep_value(shape: &str, depth: usize) -> jsonb::Value<'static> {
+    let mut v = jsonb::Value::Number(jsonb::Number::UInt64(1));
+    for l in (0..depth).rev() {
+        v = if is_arr(shape, l) {
+            jsonb::Value::Array(vec![v])
+        } else {
+            let mut m = std::collections::BTreeMap::new();
+            m.insert("a".to_string(), v);
+            jsonb::Value::Object(m)
+        };
+    }
+    v
+}
+
+fn deep_path(shape: &str, depth: usize) -> Vec<u8> {
+    let mut s = b"$".to_vec();
+    for l in 0..depth {
+        if is_arr(shape, l) {
+            s.extend_from_slice(b"[0]");
+        } else {
+            s.extend_from_slice(b".a");
+        }
+    }
+    s
+}
+
+fn deep_keypath(shape: &str, depth: usize) -> Vec<KP> {
+    (0..depth).map(|l| if is_arr(shape, l) { KP::Index(0) } else { KP::Name("a".into()) }).collect()
+}
+
+// ------------------------------------------------------------------ the cell (child process)
+
+pub fn cell_main(args: &[String]) {
+    let entry = args.first().cloned().unwrap_or_default();
+    let shape = args.get(1).cloned().unwrap_or_else(|| "array".into());
+    let depth: usize = args.get(2).and_then(|s| s.parse().ok()).unwrap_or(1);
+    let h = std::thread::Builder::new()
+        .stack_size(8 << 20)
+        .spawn(move || {
+            let r = std::panic::catch_unwind(|| run_cell(&entry, &shape, depth));
+            match r {
+                Ok(outcome) => {
+                    println!("CELL-DONE {}", outcome);
+                    0
+                }
+                Err(_) => {
+                    println!("CELL-PANIC");
+                    101
+                }
+            }
+        })
+        .unwrap();
+    let code = h.join().unwrap_or(102);
+    std::process::exit(code);
+}
+
+fn run_cell(entry: &str, shape: &str, depth: usize) -> &'static str {
+    fn oe<T, E>(r: &Result<T, E>) -> &'static str {
+        if r.is_ok() {
+            "ok"
+        } else {
+            "err"
+        }
+    }
+    match entry {
+        "parse_value" => {
+            let t = deep_text(shape, depth);
+            let r = jsonb::parse_value(&t);
+            let o = oe(&r);
+            std::mem::forget(r); // dropping a deep Value recurses in the harness, not in the call under test
+            o
+        }
+        "Value::to_vec" => {
+            let v = deep_value(shape, depth);
+            let b = v.to_vec();
+            std::mem::forget(v);
+            if b.is_empty() {
+                "err"
+            } else {
+                "ok"
+            }
+        }
+        "from_slice" | "parse_jsonb" => {
+            let b = deep_jsonb(shape, depth, 1);
+            let r = if entry == "from_slice" { jsonb::from_slice(&b) } else { jsonb::parse_jsonb(&b) };
+            let o = oe(&r);
+            std::mem::forget(r);
+            o
+        }
+        "to_string" => {
+            let b = deep_jsonb(shape, depth, 1);
+            let s = jsonb::to_string(&b);
+            if s.len() >= depth {
+                "ok"
+            } else {
+                "err"
+            }
+        }
+        "to_pretty_string" => {
+            // pretty output is quadratic in depth (indentation): cap the depth that is meaningful
+            let b = deep_jsonb(shape, depth.min(20_000), 1);
+            let s = jsonb::to_pretty_string(&b);
+            if s.len() >= depth.min(20_000) {
+                "ok"
+            } else {
+                "err"
+            }
+        }
+        "compare" => {
+            let a = deep_jsonb(shape, depth, 1);
+            let b = deep_jsonb(shape, depth, 2);
+            oe(&jsonb::compare(&a, &b))
+        }
+        "convert_to_comparable" => {
+            // nesting beyond 255 is the separate C14 depth-marker finding; C20 observes crashes only
+            // up to that bound for this entry point
+            let b = deep_jsonb(shape, depth.min(255), 1);
+            let mut k = Vec::new();
+            jsonb::convert_to_comparable(&b, &mut k);
+            "ok"
+        }
+        "contains" => {
+            let a = deep_jsonb(shape, depth, 1);
+            let b = deep_jsonb(shape, depth, 1);
+            if jsonb::contains(&a, &b) {
+                "ok"
+            } else {
+                "err"
+            }
+        }
+        "strip_nulls" => {
+            let a = deep_jsonb(shape, depth, 1);
+            let mut o = Vec::new();
+            oe(&jsonb::strip_nulls(&a, &mut o))
+        }
+        "to_serde_json" => {
+            let a = deep_jsonb(shape, depth, 1);
+            let r = jsonb::to_serde_json(&a);
+            let o = oe(&r);
+            std::mem::forget(r);
+            o
+        }
+        "get_by_path" => {
+            let a = deep_jsonb(shape, depth, 1);
+            let p = deep_path(shape, depth);
+            match jsonb::jsonpath::parse_json_path(&p) {
+                Ok(jp) => {
+                    let (mut d, mut o) = (Vec::new(), Vec::new());
+                    oe(&jsonb::get_by_path(&a, jp, &mut d, &mut o))
+                }
+                Err(_) => "err",
+            }
+        }
+        "get_by_keypath" => {
+            let a = deep_jsonb(shape, depth, 1);
+            let kp = lib_keypath(&deep_keypath(shape, depth));
+            if jsonb::get_by_keypath(&a, kp.iter()).is_some() {
+                "ok"
+            } else {
+                "err"
+            }
+        }
+        "delete_by_keypath" => {
+            let a = deep_jsonb(shape, depth, 1);
+            let kp = lib_keypath(&deep_keypath(shape, depth));
+            let mut o = Vec::new();
+            oe(&jsonb::delete_by_keypath(&a, kp.iter(), &mut o))
+        }
+        "traverse_check_string" => {
+            let a = deep_jsonb(shape, depth, 1);
+            if jsonb::traverse_check_string(&a, |_| false) {
+                "err"
+            } else {
+                "ok"
+            }
+        }
+        "concat" => {
+            let a = deep_jsonb(shape, depth, 1);
+            let b = deep_jsonb(shape, depth, 2);
+            let mut o = Vec::new();
+            oe(&jsonb::concat(&a, &b, &mut o))
+        }
+        "parse_json_path(parens)" => {
+            let mut s = b"$ ? (".to_vec();
+            for _ in 0..depth {
+                s.push(b'(');
+            }
+            s.extend_from_slice(b"@ == 1");
+            for _ in 0..depth {
+                s.push(b')');
+            }
+            s.push(b')');
+            let r = jsonb::jsonpath::parse_json_path(&s);
+            let o = oe(&r);
+            std::mem::forget(r);
+            o
+        }
+        "parse_json_path(nested-filters)" => {
+            let mut s = b"$".to_vec();
+            for _ in 0..depth {
+                s.extend_from_slice(b"?(exists(@.a");
+            }
+            for _ in 0..depth {
+                s.extend_from_slice(b"))");
+            }
+            let r = jsonb::jsonpath::parse_json_path(&s);
+            let o = oe(&r);
+            std::mem::forget(r);
+            o
+        }
+        "parse_json_path(long)" => {
+            let p = deep_path(shape, depth);
+            let r = jsonb::jsonpath::parse_json_path(&p);
+            oe(&r)
+        }
+        _ => "err",
+    }
+}
+
+// ------------------------------------------------------------------ parent side
+
+#[derive(Debug, Clone, PartialEq)]
+enum CellResult {
+    Done(String),
+    Panic,
+    /// killed by a signal (stack overflow => SIGABRT after "has overflowed its stack")
+    Signal(String),
+    Watchdog,
+    Other(String),
+}
+
+fn run_one_cell(entry: &str, shape: &str, depth: usize) -> CellResult {
+    let exe = match std::env::current_exe() {
+        Ok(e) => e,
+        Err(e) => return CellResult::Other(format!("current_exe: {}", e)),
+    };
+    let mut child = match Command::new(exe).args(["cell", entry, shape, &depth.to_string()]).stdout(Stdio::piped()).stderr(Stdio::piped()).spawn() {
+        Ok(c) => c,
+        Err(e) => return CellResult::Other(format!("spawn: {}", e)),
+    };
+    let t0 = Instant::now();
+    loop {
+        match child.try_wait() {
+            Ok(Some(_)) => break,
+            Ok(None) => {
+                if t0.elapsed() > Duration::from_secs(120) {
+                    let _ = child.kill();
+                    let _ = child.wait();
+                    return CellResult::Watchdog;
+                }
+                std::thread::sleep(Duration::from_millis(5));
+            }
+            Err(e) => return CellResult::Other(format!("wait: {}", e)),
+        }
+    }
+    let out = match child.wait_with_output() {
+        Ok(o) => o,
+        Err(e) => return CellResult::Other(format!("output: {}", e)),
+    };
+    let so = String::from_utf8_lossy(&out.stdout).to_string();
+    let se = String::from_utf8_lossy(&out.stderr).to_string();
+    if let Some(l) = so.lines().find(|l| l.starts_with("CELL-DONE")) {
+        return CellResult::Done(l[9..].trim().to_string());
+    }
+    if so.contains("CELL-PANIC") {
+        return CellResult::Panic;
+    }
+    use std::os::unix::process::ExitStatusExt;
+    if let Some(sig) = out.status.signal() {
+        let why = if se.contains("overflowed its stack") { "stack-overflow" } else if se.contains("memory allocation") { "alloc-failure" } else { "signal" };
+        return CellResult::Signal(format!("{}(sig {})", why, sig));
+    }
+    CellResult::Other(format!("exit {:?} stderr {}", out.status.code(), se.chars().take(200).collect::<String>()))
+}
+
+fn cells(ctx: &mut Ctx) {
+    let max_depth = if ctx.tier == Tier::Quick { 10_000 } else { 300_000 };
+    let mut k = 0usize;
+    for entry in ENTRIES {
+        for shape in SHAPES {
+            if entry.starts_with("parse_json_path(p") || entry.starts_with("parse_json_path(n") {
+                if *shape != "array" {
+                    continue;
+                }
+            }
+            k += 1;
+            if k % ctx.nshards != ctx.shard {
+                continue;
+            }
+            // ascend the schedule; stop at the first crash (deeper cells crash too)
+            for &d in DEPTHS.iter().filter(|d| **d <= max_depth) {
+                if !ctx.next_case() {
+                    return;
+                }
+                let r = run_one_cell(entry, shape, d);
+                ctx.count("cells");
+                ctx.distinct(crate::prng::hash_bytes(format!("{}{}{}", entry, shape, d).as_bytes()));
+                let info = || format!("cell entry={} shape={} depth={} result={:?} (subprocess `jv cell {} {} {}`, 8 MiB stack)", entry, shape, d, r, entry, shape, d);
+                match &r {
+                    CellResult::Done(o) => {
+                        ctx.count(&format!("cell.done.{}", o));
+                        ctx.sample(|| info());
+                    }
+                    CellResult::Panic => {
+                        ctx.violation(&format!("{}/panic", entry), || info());
+                        break;
+                    }
+                    CellResult::Signal(why) if why.starts_with("stack-overflow") => {
+                        ctx.count("cell.stack-overflow");
+                        match known_floor(entry) {
+                            Some(floor) if d >= floor => ctx.violation(&format!("{}/stack-overflow/at-depth>={}", entry, floor), || info()),
+                            Some(floor) => ctx.violation(&format!("{}/stack-overflow/at-depth={}(below the known floor {})", entry, d, floor), || info()),
+                            None => ctx.violation(&format!("{}/stack-overflow/at-depth={}", entry, d), || info()),
+                        }
+                        break;
+                    }
+                    CellResult::Signal(why) if why.starts_with("alloc-failure") => {
+                        ctx.notes.push(format!("allocation failure (not judged): {}", info()));
+                        break;
+                    }
+                    CellResult::Signal(_) => {
+                        ctx.violation(&format!("{}/killed-by-signal", entry), || info());
+                        break;
+                    }
+                    CellResult::Watchdog => {
+                        ctx.notes.push(format!("HARNESS-ERROR watchdog: {}", info()));
+                        break;
+                    }
+                    CellResult::Other(_) => {
+                        ctx.notes.push(format!("HARNESS-ERROR cell failed to run: {}", info()));
+                        break;
+                    }
+                }
+            }
+        }
+    }
+}
+
+// ------------------------------------------------------------------ extreme integer arguments (in-process)
+
+const EXTREMES: &[i32] = &[i32::MIN, i32::MIN + 1, -1, 0, 1, i32::MAX - 1, i32::MAX];
+
+fn call_buf<E: std::fmt::Debug>(ctx: &mut Ctx, name: &str, f: impl FnOnce(&mut Vec<u8>) -> Result<(), E>, info: &dyn Fn() -> String) -> Option<Result<Vec<u8>, String>> {
+    match guard(|| {
+        let mut o = Vec::new();
+        f(&mut o).map(|_| o).map_err(|e| format!("{:?}", e))
+    }) {
+        Ok(r) => Some(r),
+        Err(p) => {
+            ctx.panic_violation(name, &p, info);
+            None
+        }
+    }
+}
+
+fn integer_cells(ctx: &mut Ctx) {
+    let mut rng = ctx.rng.fork();
+    let docs: Vec<Tree> = vec![
+        Tree::Arr(vec![]),
+        Tree::Arr(vec![Tree::Num(Num::U(1))]),
+        Tree::Arr(vec![Tree::Num(Num::U(1)), Tree::Str("a".into()), Tree::Arr(vec![Tree::Null, Tree::Bool(true)])]),
+        Tree::Obj(vec![("a".into(), Tree::Arr(vec![Tree::Num(Num::U(1)), Tree::Num(Num::U(2))]))]),
+        Tree::Num(Num::U(7)),
+    ];
+    for t in &docs {
+        let enc = refcodec::encode(t);
+        let len = if let Tree::Arr(v) = t { v.len() as i32 } else { 0 };
+        let mut positions: Vec<i32> = EXTREMES.to_vec();
+        positions.extend([-len - 1, -len, len - 1, len, len + 1]);
+        for &pos in &positions {
+            if !ctx.next_case() {
+                return;
+            }
+            ctx.count("integer-cells");
+            let info = || format!("doc={} position={}", t.show(), pos);
+            // delete_by_index / array_insert
+            let got = call_buf(ctx, "delete_by_index(extreme)", |o| jsonb::delete_by_index(&enc, pos, o), &info);
+                super::c06::judge(ctx, "delete_by_index(extreme)", got, &refops::delete_by_index(t, pos), false, &info);
+            let new = Tree::Num(Num::U(9));
+            let nenc = refcodec::encode(&new);
+            let got = call_buf(ctx, "array_insert(extreme)", |o| jsonb::array_insert(&enc, pos, &nenc, o), &info);
+                super::c06::judge(ctx, "array_insert(extreme)", got, &Edit::Ok(refops::array_insert(t, pos, &new)), false, &info);
+            // key paths with extreme indices
+            for kp in [vec![KP::Index(pos)], vec![KP::Name("a".into()), KP::Index(pos)], vec![KP::Index(2), KP::Index(pos)]] {
+                let lp = lib_keypath(&kp);
+                let kinfo = || format!("keypath={:?} ; {}", kp, info());
+                match guard(|| jsonb::get_by_keypath(&enc, lp.iter())) {
+                    Err(p) => ctx.panic_violation("get_by_keypath(extreme)", &p, &kinfo),
+                    Ok(got) => {
+                        let exp = refops::get_by_keypath(t, &kp);
+                        match (got, exp) {
+                            (None, None) => {}
+                            (Some(b), Some(x)) => {
+                                ctx.check_doc("get_by_keypath(extreme)", &b, &x, &kinfo);
+                            }
+                            (g, x) => ctx.violation("get_by_keypath(extreme)/wrong", || format!("{:?} vs {:?} ; {}", g.map(|b| hex(&b)), x.map(|t| t.show()), kinfo())),
+                        }
+                    }
+                }
+                let got = call_buf(ctx, "delete_by_keypath(extreme)", |o| jsonb::delete_by_keypath(&enc, lp.iter(), o), &kinfo);
+                    super::c06::judge(ctx, "delete_by_keypath(extreme)", got, &refops::delete_by_keypath(t, &kp), false, &kinfo);
+            }
+            // JSONPath indices and ranges with extreme values (parsed from text, evaluated, compared with the model)
+            let forms: Vec<Vec<AIdx>> = vec![
+                vec![AIdx::One(Idx::I(pos))],
+                vec![AIdx::One(Idx::Last(pos))],
+                vec![AIdx::Range(Idx::I(pos), Idx::I(i32::MAX))],
+                vec![AIdx::Range(Idx::I(i32::MIN + 1), Idx::Last(pos))],
+                vec![AIdx::Range(Idx::Last(pos), Idx::Last(0))],
+                vec![AIdx::Range(Idx::Last(i32::MIN + 1), Idx::Last(pos))],
+            ];
+            for f in forms {
+                // `last - 2147483648` cannot be written (the grammar reads an i32 after the minus)
+                let writable = f.iter().all(|a| match a {
+                    AIdx::One(Idx::Last(n)) | AIdx::Range(Idx::Last(n), _) | AIdx::Range(_, Idx::Last(n)) => *n != i32::MIN,
+                    _ => true,
+                });
+                if !writable {
+                    continue;
+                }
+                let p = JPath::Steps(vec![Step::Indices(f)]);
+                let text = refpath::render(&p, &refpath::PLAIN, &mut rng);
+                super::c08::check(ctx, t, &p, &text);
+                let p2 = JPath::Steps(vec![Step::Name("a".into(), refpath::NameStyle::Dot), if let JPath::Steps(s) = &p { s[0].clone() } else { unreachable!() }]);
+                let text2 = refpath::render(&p2, &refpath::PLAIN, &mut rng);
+                super::c08::check(ctx, t, &p2, &text2);
+            }
+        }
+    }
+    // random paths with big indices
+    let n = ctx.budget(4_000, 100_000);
+    let cfg = PathCfg { max_steps: 3, filters: true, big_indices: true };
+    for _ in 0..n {
+        if !ctx.next_case() {
+            return;
+        }
+        let doc = gen::doc(&mut rng, &gen::DOC_FINITE);
+        let pg = PathGen::new(&doc);
+        let p = pg.path(&mut rng, &cfg);
+        let text = refpath::render(&p, &refpath::PLAIN, &mut rng);
+        ctx.count("integer-cells");
+        super::c08::check(ctx, &doc, &p, &text);
+    }
+}
+
+pub fn run(ctx: &mut Ctx) {
+    if ctx.miri {
+        // no subprocesses under Miri
+        integer_cells(ctx);
+        return;
+    }
+    cells(ctx);
+    if ctx.shard == 0 {
+        integer_cells(ctx);
+    }
+}
